@@ -79,6 +79,8 @@ pub struct ListenWorld {
     clock_last_accept: u64,
     /// accepted-but-unfinished connections at the most recent tick
     unfinished_at_last_tick: Vec<usize>,
+    /// accepted-but-unfinished connections when the loop began to tear its pool down (= after it decided to return)
+    unfinished_at_teardown: Option<Vec<usize>>,
     last_event_was_tick: bool,
     returned_checked: bool,
     finished_seen: usize,
@@ -140,6 +142,11 @@ impl World for ListenWorld {
         }
     }
     fn on_grant(&mut self, st: &mut St, _tid: usize, op: &Op) {
+        if let Op::Probe(P::DropBeforeTerminate) = op {
+            if self.unfinished_at_teardown.is_none() {
+                self.unfinished_at_teardown = Some(self.accepted.iter().copied().filter(|c| !finished(st, *c)).collect());
+            }
+        }
         if let Op::Accept(_) = op {
             if st.accept_answer.is_some() {
                 return; // granted by a tick
@@ -289,8 +296,13 @@ impl World for ListenWorld {
                         if since < self.spec.idle_timeout * 1000 {
                             return Some((self.sig("timeout-too-early"), format!("Timeout returned {} ms after the last accepted connection, idle_timeout is {} s; {}", since, self.spec.idle_timeout, ev)));
                         }
-                        if !self.unfinished_at_last_tick.is_empty() {
-                            return Some((self.sig("timeout-while-serving"), format!("Timeout returned while connection(s) {:?} were still being served; {}", self.unfinished_at_last_tick, ev)));
+                        // "while a connection is still being served": unfinished when the last timeout answer was given *and*
+                        // still unfinished when the loop, having decided to return, began to tear its pool down (between the
+                        // timeout answer and the decision the loop reads its busy count; a connection that ends in that
+                        // window was no longer being served at the decision)
+                        let still: Vec<usize> = self.unfinished_at_last_tick.iter().copied().filter(|c| self.unfinished_at_teardown.as_ref().map(|u| u.contains(c)).unwrap_or(true)).collect();
+                        if !still.is_empty() {
+                            return Some((self.sig("timeout-while-serving"), format!("Timeout returned while connection(s) {:?} were still being served; {}", still, ev)));
                         }
                     }
                     Err(k) => return Some((self.sig("listen-error"), format!("listen returned unexpected error {}; {}", k, ev))),
@@ -445,6 +457,7 @@ pub fn build_listen(spec: ListenSpec) -> impl Fn(&Sched) -> Scenario {
             ticks_total: 0,
             clock_last_accept: 0,
             unfinished_at_last_tick: vec![],
+            unfinished_at_teardown: None,
             last_event_was_tick: false,
             returned_checked: false,
             finished_seen: 0,
